@@ -5,7 +5,7 @@
 import itertools
 
 from ..core.result import R
-from ..core.explore import bfs
+from ..core.explore import bfs, hidden_attrs
 from ..core import servers as SV
 
 PROPERTY = "C13"
@@ -184,7 +184,8 @@ def run_shard(desc, tier):
 
         def canon(hist):
             resp, d, _ = replay_history(iface, init, hist)
-            return tuple(sorted(resp.headers.items()))
+            hidden = hidden_attrs(resp.headers, ("_list", "_dict"))
+            return (tuple(sorted(resp.headers.items())), hidden)
 
         def on_state(hist, depth):
             resp, d, prob = replay_history(iface, init, hist)
